@@ -1161,7 +1161,16 @@ def real_apply(op, reals, dictable):
 
 
 # ----------------------------------------------------------------------------------------------
+TABLE_MAKERS = {'new_records', 'new_columns', 'new_rows', 'slice', 'mask', 'take', 'project', 'derive', 'rename', 'do', 'minus', 'copy',
+                'add', 'add_record', 'add_zero', 'concat', 'sum_rows', 'inc', 'exc', 'inc_fn', 'inc_all'}
+
+
 def shrink_candidates(trace):
+    # operands are named by pool position, so dropping an operation that adds a table would renumber everything after
+    # it: such operations are neutralised (replaced by the creation of an empty table) instead of dropped
+    for k, op in enumerate(trace['ops']):
+        if op['op'] in TABLE_MAKERS and not (op['op'] == 'update_from' and op.get('via') != 'call'):
+            t = _copy.deepcopy(trace); t['ops'][k] = {'op': 'new_empty'}; yield t
     for k, op in enumerate(trace['ops']):
         if op.get('raise_at') is not None:
             t = _copy.deepcopy(trace); t['ops'][k]['raise_at'] = None; yield t
@@ -1180,7 +1189,7 @@ def shrink_candidates(trace):
 
 
 def size(trace):
-    return len(trace['ops']) * 50 + len(repr(trace['ops']))
+    return sum(50 for op in trace['ops'] if op['op'] != 'new_empty') + len(trace['ops']) + len(repr(trace['ops']))
 
 
 def signature(trace, violation):
